@@ -216,6 +216,16 @@ def main():
                 ck.violation("exciton-dipole-strengths", "diagonalize",
                              dict(rp, strengths_err=e1, energies_err=e2,
                                   asymmetry=e3), rp)
+            # the operators handed out AFTER the diagonalisation are still
+            # the Frenkel (site basis) ones
+            Ha = numpy.array(agd.get_Hamiltonian()._data)
+            Da = numpy.array(agd.get_TransitionDipoleMoment()._data)
+            ck.case("operators-after-diagonalize", s)
+            if not numpy.array_equal(Ha, Hd) or not numpy.array_equal(Da, Dd):
+                ck.violation(
+                    "hamiltonian-element", "after-diagonalize",
+                    dict(rp, dH=float(numpy.abs(Ha - Hd).max()),
+                         dD=float(numpy.abs(Da - Dd).max())), rp)
         for perm in itertools.permutations(range(N)):
             with ck.guarded("relabelling-invariant", "perm", rp, rp):
                 ag1, H1, D1 = build(Ecm, Jcm, dip, list(perm), "1/cm", "int",
